@@ -5,7 +5,7 @@
    eigh of the EX-space propagator, the purification identities (dense oracle), norms as real square roots. *)
 From Coq Require Import QArith ZArith List Arith Bool Qcanon.
 Import ListNotations.
-From RV Require Import Base.CRing Base.BigSum Gen.RkTableaux Gen.EvolveExact Model.Rk Model.Chain Model.Prop Proofs.PropProofs.
+From RV Require Import Base.CRing Base.BigSum Gen.RkTableaux Gen.EvolveExact Model.Rk Model.Chain Model.Env Model.Prop Proofs.EnvProofs Proofs.PropProofs.
 Close Scope Q_scope.
 Close Scope Qc_scope.
 
@@ -118,6 +118,45 @@ Theorem C10_thermal_steps_compose :
   thermal_loop K V mscale (E tau) N (f :: fs) psi0 = N (E (tmul T tadd tzero (S (length fs)) tau) psi0).
 Proof. exact thermal_steps_compose. Qed.
 Print Assumptions C10_thermal_steps_compose.
+
+(* ================================================================== purified density operators ========= *)
+(* dense(MpDm.from_mps(psi))[s, s'] = [s = s'] psi(s), for every chain (any bond dimensions) *)
+Theorem C10_from_mps_dense : forall (K : CRing) (ts : list (nat * T3 K)) su sd,
+  opamp (from_mps K ts) su sd = if cfg_eqb su sd then amp ts su else r0 K.
+Proof. exact from_mps_dense. Qed.
+Print Assumptions C10_from_mps_dense.
+
+(* dense(MpDm.max_entangled_gs) = [s = s'] . w(s): w is the product of the vibrational entries (1/sqrt(pdim), or 1 when not
+   normalised) times [every electronic index is 0]; any number of sites and levels ... *)
+Theorem C10_max_entangled_identity : forall (K : CRing) (ws : list (option K)) su sd, length su = length ws ->
+  opamp (max_entangled_gs K ws) su sd = if cfg_eqb su sd then me_weight K ws su else r0 K.
+Proof. exact max_entangled_identity_gen. Qed.
+Print Assumptions C10_max_entangled_identity.
+
+(* ... and w is the same for all vibrational configurations: a multiple of the identity on the vibrational sites *)
+Theorem C10_max_entangled_weight_const : forall (K : CRing) (ws : list (option K)) s s',
+  length s = length ws -> length s' = length ws ->
+  (forall k, nth k ws None = None -> nth k s 0 = 0 /\ nth k s' 0 = 0) -> me_weight K ws s = me_weight K ws s'.
+Proof. exact me_weight_const. Qed.
+Print Assumptions C10_max_entangled_weight_const.
+
+(* MpDm._expectation_path (expectation4 of Model/Env.v, the contraction order of the code) with bra = conj(ket):
+   <rho|O|rho> = sum_{s',s} O[s',s] R[s,s'] = Tr(O R),  R[s,s'] = sum_t rho[s,t] conj(rho[s',t]) = rho rho^+ with the auxiliary
+   index t traced out -- the expectation value of O in the physical density operator *)
+Theorem C10_purification_expectation : forall (K : CRing) (ss : list (site4 K)),
+  ss <> [] -> lastA K 1 ss = 1 -> lastB K 1 ss = 1 -> lastC K 1 ss = 1 -> purified K ss ->
+  expectation4 ss =
+  sumcfg (map (@p4 K) ss) (fun s' => sumcfg (map (@p4 K) ss) (fun s =>
+    rmul K (opamp (ops4 ss) s' s)
+      (sumcfg (map (@q4 K) ss) (fun t => rmul K (opamp (kets4 ss) s t) (rcj K (opamp (kets4 ss) s' t)))))).
+Proof. exact purification_expectation_gen. Qed.
+Print Assumptions C10_purification_expectation.
+
+Example C10_max_entangled_example :
+  opamp (max_entangled_gs ZRing [None; Some 1%Z; Some 1%Z]) [0; 1; 2] [0; 1; 2] = 1%Z
+  /\ opamp (max_entangled_gs ZRing [None; Some 1%Z; Some 1%Z]) [0; 1; 2] [0; 2; 1] = 0%Z
+  /\ opamp (max_entangled_gs ZRing [None; Some 1%Z; Some 1%Z]) [1; 1; 2] [1; 1; 2] = 0%Z.
+Proof. vm_compute. repeat split. Qed.
 
 (* non-vacuity: the integers with expo a = (-1)^a satisfy the two laws of the abstract exponential; two sites
    (electronic, vibrational omega = 3), x = 1, shift = 1: exponent 1*(1 + 3*2) = 7, amplitude -1 on the diagonal *)
